@@ -15,6 +15,9 @@ from .sym import SymWorld
 
 def gen_layer(rng, idx):
     r = rng.random()
+    if r < 0.07:
+        names = rng.sample(POOL, rng.choice([1, 2, 3]))
+        return {'k': 'apply', 'fns': {n: f'ap{idx}.{n}' for n in names}}
     if r < 0.25:
         d = gen_source(rng, idx)
     else:
@@ -57,6 +60,10 @@ def gen_layer(rng, idx):
 def model_desc(b, d):
     """the description the model is given: the Source's `ids` is an ordinary meta field computed by a function without arguments"""
     m = json.loads(json.dumps(d))
+    if d['k'] == 'apply':
+        # `Apply(name=f, ...)` builds the container of a Transform that inherits everything and redefines `name` as f(name)
+        return {'k': 'transform', 'cls': 'Apply', 'fields': {n: {'args': [n], 'f': f} for n, f in d['fns'].items()}, 'params': {},
+                'cargs': {}, 'defaults': {}, 'inherit': True}
     if d['k'] == 'source':
         ids = tuple(d['ids'])
         fname = f'{d["cls"]}.ids' + ('' if not getattr(b, 'ids_by_value', True) else '[' + ','.join(map(str, ids)) + ']')
@@ -65,9 +72,9 @@ def model_desc(b, d):
     return m
 
 
-def real_bag(world, layer):
+def real_bag(world, layer, bag=None):
     """the real container in the JSON form of the model, with the edges spelled out"""
-    bag = layer._container
+    bag = layer._container if bag is None else bag
     rec = Recorder()
     ex = Extractor(world)
     ids = {}
@@ -93,7 +100,7 @@ def etag(t):
         return 'const:' + canon(t['v'])
     if t['k'] in ('impure', 'byvalue'):
         return t['k'] + '(' + etag(t['inner']) + ')'
-    return t['k']
+    return t['k']        # a cache edge: every field has a storage of its own, the numbering is arbitrary
 
 
 def canon_sem(b):
@@ -131,8 +138,8 @@ def canon_sem(b):
 def run_shard(args):
     seed, n = args
     paths.use_repo()
-    recs, reqs = [], []
-    stats = {'layers': 0, 'sources': 0, 'with_inverses': 0, 'errors': {}, 'edges': 0, 'optional_nodes': 0, 'wf': 0}
+    recs, reqs, crecs, creqs = [], [], [], []
+    stats = {'cache_bags': 0, 'layers': 0, 'sources': 0, 'with_inverses': 0, 'errors': {}, 'edges': 0, 'optional_nodes': 0, 'wf': 0}
     for c in range(n):
         rng = random.Random(seed * 48611 + c)
         d = gen_layer(rng, c % 7)
@@ -147,7 +154,19 @@ def run_shard(args):
             real = {'err': exc_name(e)}
         recs.append((d, real))
         reqs.append(model_desc(b, d))
-    answers = driver.run_lines([{'op': 'factory', 'layers': reqs}])[0] if reqs else {'outs': []}
+        # a cache layer on top of this layer: the container `CacheToStorage._prepare_container` builds from the previous one
+        if 'ok' in real and rng.random() < 0.5:
+            prev = [n.name for n in layer._container.outputs]
+            names = rng.choice([None, rng.sample(POOL + ['id', 'ids'], rng.randint(1, 3)), prev[:1]])
+            try:
+                cl = b.c.CacheToRam(names, size=rng.choice([None, 2]), impure=True)
+                cbag = cl._prepare_container(layer._container)
+                creal = {'ok': real_bag(world, None, cbag)}
+            except Exception as e:
+                creal = {'err': exc_name(e)}
+            crecs.append(({'layer': d, 'names': names}, creal))
+            creqs.append({'names': {'cofin': []} if names is None else {'fin': list(names)}, 'prev': prev})
+    answers = driver.run_lines([{'op': 'factory', 'layers': reqs, 'caches': creqs}])[0] if reqs else {'outs': [], 'caches': []}
     bad = []
     if 'error' in answers:
         return stats, [{'desc': None, 'diff': answers['error']}]
@@ -170,4 +189,16 @@ def run_shard(args):
             bad.append({'desc': d, 'what': keys, 'real': {k: a[k] for k in keys[:2]}, 'model': {k: m[k] for k in keys[:2]}})
         elif not ans.get('wf') or not ans.get('acyclic'):
             bad.append({'desc': d, 'what': 'the model container of a layer is not well-formed (Bag.wfB / acyclicB)', 'wf': ans.get('wf')})
+    for (cd, real), ans in zip(crecs, answers.get('caches', [])):
+        stats['cache_bags'] += 1
+        if 'err' in real or 'err' in ans:
+            if real.get('err') != ans.get('err'):
+                bad.append({'desc': cd, 'what': 'cache layer container', 'real': real.get('err', 'ok'), 'model': ans.get('err', 'ok')})
+            continue
+        a, m = canon_sem(real['ok']), canon_sem(ans['ok'])
+        if a != m:
+            keys = [k for k in a if a[k] != m[k]]
+            bad.append({'desc': cd, 'what': ['cache layer container'] + keys, 'real': {k: a[k] for k in keys[:2]}, 'model': {k: m[k] for k in keys[:2]}})
+        elif not ans.get('wf'):
+            bad.append({'desc': cd, 'what': 'the model container of a cache layer is not well-formed (Bag.wfB)'})
     return stats, bad
